@@ -14,3 +14,4 @@ import Gmsm.Props.C02
 import Gmsm.Props.C13
 import Gmsm.Props.C14
 import Gmsm.Props.C09
+import Gmsm.Props.C17
